@@ -347,21 +347,28 @@ func (x *Exec) Read(r Ref, off uint64, cnt uint32) error {
 	if !want {
 		return nil
 	}
-	full := r.N.ReadAt(off, uint64(cnt))
+	var avail uint64 // bytes of the file in the requested range
+	if off < r.N.Size {
+		avail = r.N.Size - off
+		if avail > uint64(cnt) {
+			avail = uint64(cnt)
+		}
+	}
 	got := res.Resok.Data
 	if uint64(res.Resok.Count) != uint64(len(got)) {
 		return x.errf("READ: count field %d but %d data bytes", res.Resok.Count, len(got))
 	}
 	// a server may return fewer bytes than asked for, but at least min(cnt, rtmax, available)
-	min := uint64(len(full))
+	min := avail
 	if min > x.M.Lim.RtMax {
 		min = x.M.Lim.RtMax
 	}
-	if uint64(len(got)) < min || len(got) > len(full) {
+	if uint64(len(got)) < min || uint64(len(got)) > avail {
 		return x.errf("READ returned %d bytes; the file (size %d) has %d bytes in the requested range (at least %d must be returned)",
-			len(got), r.N.Size, len(full), min)
+			len(got), r.N.Size, avail, min)
 	}
-	if d := firstDiff(got, full[:len(got)]); d >= 0 {
+	full := r.N.ReadAt(off, uint64(len(got)))
+	if d := firstDiff(got, full); d >= 0 {
 		return x.errk(dataKind(got[d], full[d]), "READ data differs from the reference at file offset %d: got %#x want %#x (block %d; a zero reference byte means never written)",
 			off+uint64(d), got[d], full[d], (off+uint64(d))/BlockSize)
 	}
